@@ -77,7 +77,12 @@ class Lib:
         return out
     def drv(self):
         if self._drv is None:
-            self._drv = self.compile(os.path.join(HARN, 'drv.c'), os.path.join(self.dir, 'drv.bin'))
+            try:
+                self._drv = self.compile(os.path.join(HARN, 'drv.c'), os.path.join(self.dir, 'drv.bin'))
+            except BuildError:
+                # the decoder's internal interface (src/utf8_decode.h) is the one part of the driver that no public header fixes: without it
+                # the W cases answer n/a and the decoder is tied through is_6531_local only
+                self._drv = self.compile(os.path.join(HARN, 'drv.c'), os.path.join(self.dir, 'drv.bin'), extra_flags=['-DNO_DECODER'])
         return self._drv
     def cli(self):
         """bin/eav built from the snapshot's bin/ sources against this configuration's libeav.a."""
